@@ -301,7 +301,7 @@ def true_distance(metric, x, y):
 # API level: the child process
 # =============================================================================================
 def worker_main(casefile, outfile):
-    import numpy as np, signal, traceback, warnings
+    import numpy as np, numba, signal, traceback, warnings
     warnings.filterwarnings("ignore")
     from scipy.sparse.csgraph import connected_components
     from pynndescent import NNDescent
@@ -340,6 +340,7 @@ def worker_main(casefile, outfile):
         return r
 
     def ds_wrap(inds, dists):
+        raw = (np.array(inds, copy=True), np.array(dists, copy=True)) if obs.get("search_tab") is not None else None
         r = real_ds(inds, dists)
         fr = sys._getframe(1)
         if fr.f_code.co_name == "find_component_connection_edge":
@@ -357,6 +358,8 @@ def worker_main(casefile, outfile):
                                               "cand": [int(v) for v in L["candidate_indices"]], "ch": [bool(L["changed"][0]), bool(L["changed"][1])],
                                               "inds": [[int(v) for v in row] for row in r[0]],
                                               "dists": [[int(np.float32(v).view(np.uint32)) for v in row] for row in r[1]]})
+                    if raw is not None and len(obs["search_lines"]) < 300:
+                        queue_search_lines(obs, [int(v) for v in L["indices"][sd]], [int(v) for v in L["candidate_indices"]], raw, r)
             except Exception:  # noqa
                 obs.pop("cur_rounds", None)
             st = obs.setdefault("loop", {"seen": {}, "rounds": 0})
@@ -368,6 +371,52 @@ def worker_main(casefile, outfile):
                     raise LoopCycle()
                 st["seen"][key] = st["rounds"]
         return r
+
+    def queue_search_lines(obs, qrows, cand, raw, srt):
+        """one `search` command of the Lean search model (Model/Search.lean, the model of C02) per query row of this round:
+        custom_search_closure = the query closure seeded with `candidate_indices` as its leaf and no random samples"""
+        tab = obs["search_tab"]
+        n = tab["n"]; k = raw[0].shape[1]
+        for i, qv in enumerate(qrows):
+            dq = tab["T"][:, qv]
+            line = "search %d %d 0 | %s | %s | %s | %s | | %d" % (n, k, tab["indptr"], tab["indices"], " ".join(str(int(b)) for b in dq),
+                                                               " ".join(str(c) for c in cand), int(np.float32(1.0).view(np.uint32)))
+            exp = "%s ; %s | %s ; %s" % (" ".join(str(int(np.float32(v).view(np.uint32))) for v in raw[1][i]), " ".join(str(int(v)) for v in raw[0][i]),
+                                         " ".join(str(int(np.float32(v).view(np.uint32))) for v in srt[1][i]), " ".join(str(int(v)) for v in srt[0][i]))
+            obs["search_lines"].append((line, exp, {"query_vertex": int(qv), "candidates": cand[:12]}))
+
+    @numba.njit
+    def _table(X, f):
+        n = X.shape[0]
+        T = np.zeros((n, n), dtype=np.float32)
+        for a in range(n):
+            for b in range(n):
+                T[a, b] = f(X[a], X[b])                  # dist(data[candidate], current_query), stored in the closure's float32 local
+        return T
+
+    def setup_search_tab(index, case):
+        """only where the table is exact whatever fastmath does to the inlined kernel: integer-valued data, no normalisation"""
+        obs["search_tab"] = None; obs["search_lines"] = []
+        if case["family"] not in ("lattice", "dup") or case["metric"] not in ("euclidean", "manhattan") or index._raw_data.shape[0] > 220:
+            return
+        G = index._search_graph
+        T = _table(index._raw_data, index._distance_func).view(np.uint32)
+        obs["search_tab"] = {"n": int(index._raw_data.shape[0]), "T": T, "indptr": " ".join(str(int(v)) for v in G.indptr),
+                             "indices": " ".join(str(int(v)) for v in G.indices)}
+
+    def flush_search_lines(rec):
+        lines = obs.get("search_lines") or []
+        if not lines:
+            return
+        out = run_driver([l[0] for l in lines])
+        sc = rec.setdefault("search_corr", {"compared": 0, "mismatch": None})
+        for (line, exp, info), m in zip(lines, out):
+            sc["compared"] += 1
+            parts = m.split(" | ")
+            got = " | ".join(parts[1:3]) if len(parts) == 4 else m
+            if got != exp and sc["mismatch"] is None:
+                sc["mismatch"] = {"info": info, "model": m[:300], "impl": exp[:300]}
+        obs["search_lines"] = []
 
     real_fe = gu.find_component_connection_edge
 
@@ -420,6 +469,7 @@ def worker_main(casefile, outfile):
                 # first call per metric also compiles the closure's callees; generous because the children share the machine
                 soft = (20.0 if first.get(metric) else 40.0) + 0.5 * ncomp * (ncomp - 1) / 2
                 first[metric] = True
+                setup_search_tab(index, case)
                 emit({"ev": "connect", "id": case["id"]})
                 obs["phase"] = "connect"
                 signal.setitimer(signal.ITIMER_REAL, soft)
@@ -429,6 +479,7 @@ def worker_main(casefile, outfile):
                 finally:
                     signal.setitimer(signal.ITIMER_REAL, 0)
                 rec["connect_s"] = round(time.time() - t0, 3)
+                flush_search_lines(rec)
                 obs["phase"] = "predicate"
                 R = result.toarray()
                 bad = rec["violations"]
@@ -616,6 +667,11 @@ def check_api_record(res, case, rec):
              if (ncomp >= 2 and len(small) >= 1 and not rec.get("violations")) else None)
     for kind, what in rec.get("violations", []):
         res.violation("connect:" + kind, what, {**key_case, "component_sizes": sizes})
+    sc = rec.get("search_corr")
+    if sc:
+        res.count("api_restricted_search_rows_compared", sc["compared"])
+        if sc["mismatch"]:
+            res.corr_fail("custom_search_closure_bit_exact", {**key_case, **sc["mismatch"]["info"]}, sc["mismatch"]["model"], sc["mismatch"]["impl"])
     if rec.get("fe_calls") and not rec.get("violations"):
         check_loop_calls(res, key_case, rec["fe_calls"])
     # every rejection_sample call the real code made: clamp precondition + exact agreement with the model
